@@ -80,10 +80,11 @@ func streamHistories(c *Ctx, cfg HistCfg, what string) {
 				h.Focus = []string{indexable[g.pick(len(indexable))], indexable[g.pick(len(indexable))]}
 			}
 			lines := h.History(cfg)
-			o := runHistory(dr, im, lines, HistOpts{})
+			hopts := HistOpts{Traces: cfg.Dumps, MaskItems: true} // with dumps also the store-call trace of every operation is compared with the model's
+			o := runHistory(dr, im, lines, hopts)
 			recordHistory(c, lines, &o, be)
 			if o.Index >= 0 {
-				reportHistoryProblem(c, dr, im, lines, &o, be, HistOpts{}, what)
+				reportHistoryProblem(c, dr, im, lines, &o, be, hopts, what)
 				im.Destroy()
 				return
 			}
